@@ -385,6 +385,11 @@ func resolvePathToFieldDescriptors(
 		}
 		result[i] = field
 		if remaining == "" {
+			if i != len(result)-1 {
+				// trailing '.': the path names one more (empty) element
+				return nil, fmt.Errorf("%w in field path %q: empty element after %q",
+					errUnknownField, path, part)
+			}
 			break
 		}
 		if field.Cardinality() == protoreflect.Repeated {
